@@ -33,6 +33,7 @@ theorem rstep_msgs (cfg : RCfg) (s : RR) (e : REv) : ∃ d, (rstep cfg s e).msgs
     · cases e with
       | data d off' oc => cases oc <;> exact ⟨d, rfl⟩
       | cutAfter d => exact ⟨d, rfl⟩
+      | ctxCanceled d => exact ⟨d, rfl⟩
       | kerr code offs =>
         simp only [onKerr]
         split <;> (try split) <;> (try split) <;> exact ⟨[], by simp [toTop, again]⟩
